@@ -26,6 +26,9 @@ fn seq_runs(pts: &[Point]) -> Value {
 }
 
 fn run_case(rec: &mut Rec, d: &Value) {
+    if d["k"].as_str() == Some("big") {
+        return run_big(rec, d);
+    }
     let s = Shape::from_desc(d);
     rec.begin(d.clone());
     let r = catch(|| {
@@ -95,6 +98,35 @@ fn run_case(rec: &mut Rec, d: &Value) {
                 json!({"bbox": rect_json(&bb), "np": pts.len(), "pr": seq_runs(&pts), "trunc": (!done) as i32,
                        "cr": runs_of(&c), "nc": c.len(), "far": far, "proto": proto, "ctd": ctd}),
             );
+        }
+        Err(p) => {
+            rec.note("panicked_cases");
+            rec.ev("panic", json!({"msg": p.msg, "loc": p.loc}));
+        }
+    }
+}
+
+/// very large shapes (their point sets cannot be enumerated): hit tests at the corners and the centre of the bounding
+/// box and outside of it, and the first few points
+fn run_big(rec: &mut Rec, d: &Value) {
+    let s = Shape::from_desc(&d["shape"]);
+    rec.begin(d.clone());
+    let r = catch(|| {
+        let bb = s.bounding_box();
+        let (w, h) = (bb.size.width as i32, bb.size.height as i32);
+        let tl = bb.top_left;
+        let mut probes = vec![];
+        for p in [tl, tl + Point::new(w - 1, 0), tl + Point::new(0, h - 1), tl + Point::new(w - 1, h - 1), bb.center(), tl + Point::new(w / 2, h / 2),
+                  tl + Point::new(-1, h / 2), tl + Point::new(w, h / 2), tl + Point::new(w / 2, -1), tl + Point::new(w / 2, h), tl + Point::new(-3, -3), tl + Point::new(w + 2, h + 2)] {
+            probes.push(json!([p.x, p.y, s.contains(p) as i32]));
+        }
+        let (first, _) = s.points(12);
+        (bb, probes, first)
+    });
+    match r {
+        Ok((bb, probes, first)) => {
+            rec.nontrivial();
+            rec.ev("big", json!({"kind": s.kind(), "bbox": rect_json(&bb), "probes": probes, "first": pts_json(first)}));
         }
         Err(p) => {
             rec.note("panicked_cases");
@@ -264,6 +296,19 @@ fn main() {
     for _ in 0..n_sec {
         let d = rng.u32r(0, if th { 100 } else { 40 });
         run_case(&mut rec, &json!({"k":"sector","tl":[rng.i32(-9, 9), rng.i32(-9, 9)],"d":d,"a0":rng.i32(-720*16, 720*16),"sw":rng.i32(-720*16, 720*16)}));
+    }
+    // very large shapes
+    for shape in [
+        json!({"k":"ellipse","tl":[-7, 3],"size":[40000, 40000]}), json!({"k":"ellipse","tl":[5, -9],"size":[33001, 33001]}),
+        json!({"k":"ellipse","tl":[0, 0],"size":[40000, 39999]}), json!({"k":"ellipse","tl":[-20000, -20000],"size":[46000, 45999]}),
+        json!({"k":"circle","tl":[-4, 4],"d":32768}), json!({"k":"circle","tl":[-16000, -16000],"d":32001}),
+        json!({"k":"rrect","r":[0, 0, 60000, 3],"radii":[[60000, 60000], [60000, 60000], [60000, 60000], [60000, 60000]]}),
+        json!({"k":"rrect","r":[-5, 2, 3, 60000],"radii":[[60000, 60000], [60000, 60000], [60000, 60000], [60000, 60000]]}),
+        json!({"k":"rrect","r":[1, 1, 70000, 2],"radii":[[50000, 9], [70000, 1], [3, 70000], [65000, 65000]]}),
+        json!({"k":"rrect","r":[0, 0, 500, 400],"radii":[[5000000, 5000000], [5000000, 5000000], [5000000, 5000000], [5000000, 5000000]]}),
+        json!({"k":"rect","r":[-100000, -100000, 200001, 200001]}),
+    ] {
+        run_case(&mut rec, &json!({"k":"big","shape":shape}));
     }
     rec.finish(json!({}));
 }
